@@ -53,6 +53,13 @@ def gen_network(rng, sw):
     cyt = [f"{hist.MET_IDS[i]}_c" for i in range(ne + nc)]
     mets = [{"id": m, "name": m, "formula": None, "charge": None, "compartment": "e"} for m in ext]
     mets += [{"id": m, "name": m, "formula": None, "charge": None, "compartment": "c"} for m in cyt]
+    if rng.random() < sw.get("p_formulas", 0.3):
+        # chemical formulas (carbon accounting of production_envelope and the summaries reads them); now and then one that
+        # the formula parser cannot take apart (a polymer), which makes those analyses raise part-way
+        for m in mets:
+            m["formula"] = rng.choice(["C6H12O6", "CO2", "H2O", "C3H4O3", None])
+        if rng.random() < 0.4:
+            rng.choice(mets[: len(ext)])["formula"] = "(C6H10O5)n"
     rxns = []
     genes = hist.GENES[: sw["n_genes"]]
 
@@ -393,7 +400,8 @@ def an_loopless_solution(model, a, p):
 def an_envelope(model, a, p):
     from cobra.flux_analysis import production_envelope
 
-    df = production_envelope(model, a["rxns"], points=a.get("points", 4))
+    kw = {"objective": a["objective"]} if a.get("objective") else {}
+    df = production_envelope(model, a["rxns"], points=a.get("points", 4), **kw)
     cols = [c for c in df.columns if c in ("flux_minimum", "flux_maximum")]
     return {"unique": {f"{i}:{c}": _nan(df[c].iloc[i]) for i in range(len(df)) for c in cols}}
 
@@ -661,6 +669,13 @@ class World:
             self.stats["probe:fault_containment_checked"] += 1
         # ---- C13 repeatable / C14 schedule independence --------------------------------------
         if not faulted and ("repeatable" in self.oracles or "schedule_independent" in self.oracles):
+            if raised is None and kind.startswith("essential_") and isinstance(uniq, dict) and "essential" in uniq:
+                sets = self._essential_sets(op)
+                if sets is None:
+                    self.stats["oracle_skip:essential_ties_unknown"] += 1
+                    uniq = None
+                else:
+                    uniq = dict(uniq, essential=sorted(set(uniq["essential"]) - sets[1]))
             sig = ("raised", type(raised).__name__) if raised is not None else ("ok", uniq)
             role = op.get("role", "ref")
             if key not in self.refs:
@@ -856,12 +871,14 @@ class World:
                             culprit=_pub(op))
         self.stats["probe:moma_attainability_checked"] += 1
 
-    def _exact_essential(self, op, result):
+    def _essential_sets(self, op):
+        """(exactly essential, ties, threshold): an entity whose exact knock-out optimum sits AT the threshold is essential or
+        not by the last bit of a float - it belongs to no uniquely defined set."""
         a = op.get("args", {})
         entity = "gene" if "genes" in op["op"] else "reaction"
         base = exact_opt(self.ref)
         if base is None or base.status != "optimal":
-            return
+            return None
         thr = a.get("threshold")
         if thr is None:
             thr = float(base.value) * 0.01
@@ -873,10 +890,18 @@ class World:
                 tie.add(x)
             elif ex.status != "optimal":
                 want.add(x)
-            elif abs(float(ex.value) - thr) < 1e-6:
+            elif abs(float(ex.value) - thr) < 1e-6 * max(1.0, abs(thr)):
                 tie.add(x)
             elif float(ex.value) < thr:
                 want.add(x)
+        return want, tie, thr
+
+    def _exact_essential(self, op, result):
+        entity = "gene" if "genes" in op["op"] else "reaction"
+        sets = self._essential_sets(op)
+        if sets is None:
+            return
+        want, tie, thr = sets
         got = set(result["unique"]["essential"])
         if (got - tie) != (want - tie):
             raise Violation("deletion_exact", {"what": f"find_essential_{entity}s differs from the exact essential set",
@@ -1078,6 +1103,8 @@ def _gen_call(rng, W, prop):
         else:
             a["rxns"] = [rng.choice(ex)]
             a["points"] = rng.choice([3, 4])
+            if rng.random() < 0.5:
+                a["objective"] = rng.choice(rids)  # an objective other than the model's own, for this call only
     elif kind == "assess":
         a["rxn"] = rng.choice(rids)
     elif kind == "minimal_medium":
@@ -1088,6 +1115,18 @@ def _gen_call(rng, W, prop):
                "rxns": [{"id": "U0", "name": "", "subsystem": "", "lb": 0, "ub": 1000,
                          "mets": [[m, c] for m, c in zip(rng.sample(sorted(ref.mets), min(2, len(ref.mets))), (-1, 1))], "tree": None}],
                "objective": {"U0": 1}, "direction": "max", "groups": []}
+        internal = [r for r in rids if not r.startswith(("EX_", "DM_")) and r != "BIO" and len(ref.rxns[r]["mets"]) >= 2]
+        if internal and rng.random() < 0.6:
+            # the universal model offers a detour around one internal reaction through a metabolite the model does not know;
+            # that reaction is shut in the model first, so that the detour is what gapfilling proposes
+            R = rng.choice(internal)
+            subs = [[m, c] for m, c in sorted(ref.rxns[R]["mets"].items()) if c < 0]
+            prods = [[m, c] for m, c in sorted(ref.rxns[R]["mets"].items()) if c > 0]
+            if subs and prods and "Unew" not in ref.mets:
+                uni["mets"].append({"id": "Unew", "name": "", "formula": None, "charge": None, "compartment": "c"})
+                uni["rxns"].append({"id": "Ua", "name": "", "subsystem": "", "lb": 0, "ub": 1000, "mets": subs + [["Unew", 1]], "tree": None})
+                uni["rxns"].append({"id": "Ub", "name": "", "subsystem": "", "lb": 0, "ub": 1000, "mets": [["Unew", -1]] + prods, "tree": None})
+                a["blocks"] = R
         a.update(universal=uni, demand=rng.random() < 0.5)
         if rng.random() < 0.5:
             a["penalties"] = {rng.choice(["universal", "exchange", "demand", "U0"]): rng.choice([1, 5, 50])}
@@ -1136,6 +1175,8 @@ def gen_ops(rng, W, prop, sw, run_cfg):
                 yield {"op": "age", "r": rng.choice(sorted(W.ref.rxns)), "dir": rng.choice(["max", "min"]), "plain": True}
                 yield {"op": "edit", "r": r, "lb": lb, "ub": ub}
         kind, a = _gen_call(rng, W, prop)
+        if kind == "gapfill" and a.get("blocks") and not pre_fix:
+            yield {"op": "edit", "r": a["blocks"], "lb": 0, "ub": 0}
         par = kind in PARALLEL
         ref_op = {"op": kind, "args": a, "processes": 1, "role": "ref"}
         yield ref_op
